@@ -10,6 +10,7 @@ import LsModel.DriverSweep
 import LsModel.DriverLoop
 import LsModel.DriverWire
 import LsModel.DriverConc
+import LsModel.DriverRecv
 /- lsdriver: one operation per input line, exactly one canonical output line per operation. -/
 open Ls.Drv
 
@@ -17,7 +18,7 @@ open Ls.Drv
 def handlers : List (String → List String → Option String) := [opHeader, opMerge, opC02, opStrat, opDup, opCfg, opName, opWire, opConc]
 
 /-- operations that read or update the driver state -/
-def statefulHandlers : List (String → List String → DrvState → Option (DrvState × String)) := [opTxn, opSweep, opLoop, opCleaner]
+def statefulHandlers : List (String → List String → DrvState → Option (DrvState × String)) := [opTxn, opSweep, opLoop, opCleaner, opRecv]
 
 def step (st : DrvState) (line : String) : DrvState × String :=
   match (line.trimAscii.toString.split (· == ' ')).toList.map (·.toString) |>.filter (· ≠ "") with
